@@ -194,3 +194,76 @@ t = sort({"p": $p, "q": $q, "r": $r}, func(ak, av, bk, bv) { return (bv - av) / 
 	c14IntIs(out[0], "t3", lo, "C09/dsl-sort-func/map-descending-by-value")
 	verifReach("C09/dsl-sort-func/end")
 }
+
+// sort-within-records: the record's own fields come out in ascending lexical key order, every
+// value unchanged; with -r ("recursively sorts subobjects/submaps") the same holds for EVERY map at
+// EVERY depth, however few keys the maps above it have.  Shapes: the record has 1..3 top-level
+// fields with symbolic one-byte keys; one of them holds a chain of 0..2 single- or two-key maps
+// ending in a two-key map with symbolic keys.
+func c09MapSorted(m *mlrval.Mlrmap, recursive bool, label string) {
+	for pe := m.Head; pe != nil; pe = pe.Next {
+		if pe.Next != nil {
+			verifAssert(pe.Key <= pe.Next.Key, label+"/keys-ascending")
+		}
+		if sub := pe.Value.GetMap(); sub != nil && recursive {
+			c09MapSorted(sub, true, label+"/nested")
+		}
+	}
+}
+
+//verif:opts engine-only maxpaths=100000 unwind=200
+func VerifC09_sort_within_records() {
+	recursive := verifChoice("recursive", 2) == 1
+	k1, k2 := verifString("leaf_key", 1), verifString("leaf_key", 1)
+	verifAssume(k1 != k2 && k1 != "m" && k2 != "m") // "m" is the chain link the oracle walks
+	leaf := mlrval.NewMlrmap()
+	leaf.PutReference(k1, mlrval.FromInt(1))
+	leaf.PutReference(k2, mlrval.FromInt(2))
+	inner := mlrval.FromMap(leaf)
+	for d := verifChoice("chain_depth", 3); d > 0; d-- {
+		wrap := mlrval.NewMlrmap()
+		if verifChoice("chain_link_keys", 2) == 1 {
+			wrap.PutReference("z", mlrval.FromInt(9))
+		}
+		wrap.PutReference("m", inner)
+		inner = mlrval.FromMap(wrap)
+	}
+	rec := mlrval.NewMlrmapAsRecord()
+	n := 1 + verifChoice("top_fields", 3)
+	t1, t2 := verifString("top_key", 1), verifString("top_key", 1)
+	verifAssume(t1 != t2 && t1 != "n" && t2 != "n")
+	if n >= 2 {
+		rec.PutReference(t1, mlrval.FromString("p"))
+	}
+	rec.PutReference("n", inner)
+	if n >= 3 {
+		rec.PutReference(t2, mlrval.FromString("q"))
+	}
+	argv := []string{"sort-within-records"}
+	if recursive {
+		argv = append(argv, "-r")
+	}
+	out := verifPutRunAny(verifVerb(argv...), rec)
+	verifAssert(len(out) == 1, "C09/sort-within-records/one-record-out")
+	if len(out) != 1 {
+		return
+	}
+	verifAssert(out[0].FieldCount == int64(n), "C09/sort-within-records/same-fields")
+	c09MapSorted(out[0], recursive, "C09/sort-within-records")
+	// values unchanged: the leaf is reachable by the same path and holds the same two entries
+	v := out[0].Get("n")
+	verifAssert(v != nil, "C09/sort-within-records/values-kept")
+	for v != nil && v.GetMap() != nil && v.GetMap().Has("m") {
+		v = v.GetMap().Get("m")
+	}
+	if v != nil && v.GetMap() != nil {
+		a, b := v.GetMap().Get(k1), v.GetMap().Get(k2)
+		verifAssert(v.GetMap().FieldCount == 2 && a != nil && b != nil && a.String() == "1" && b.String() == "2", "C09/sort-within-records/values-kept")
+	} else {
+		verifAssert(false, "C09/sort-within-records/values-kept")
+	}
+	if p := out[0].Get(t1); n >= 2 {
+		verifAssert(p != nil && p.String() == "p", "C09/sort-within-records/values-kept")
+	}
+	verifReach("C09/sort-within-records/end")
+}
